@@ -183,8 +183,15 @@ affine_balance.rule_id = "C09.AFFINE-BALANCE"
 
 # --------------------------------------------------------------------------------------------
 def _is_noop(fn: FuncInfo) -> bool:
-    body = [s for s in fn.node.body if not (isinstance(s, ast.Expr) and isinstance(s.value, ast.Constant))]
-    return all(isinstance(s, ast.Pass) or (isinstance(s, ast.Return) and (s.value is None or ast.unparse(s.value) == "self")) for s in body)
+    """No call, no store into an attribute or container: the method leaves the entity as it is."""
+    for n in ast.walk(fn.node):
+        if isinstance(n, ast.Call):
+            return False
+        if isinstance(n, (ast.Assign, ast.AugAssign, ast.AnnAssign)):
+            tgts = n.targets if isinstance(n, ast.Assign) else [n.target]
+            if any(isinstance(t, (ast.Attribute, ast.Subscript)) for t in tgts):
+                return False
+    return True
 
 
 def _forwards_origin(fn: FuncInfo) -> bool:
